@@ -128,12 +128,15 @@ CompleteViol(out, max, cond, scope) ==
        /\ (scope[1] = "all" \/ OutIds(out) # {})
   THEN {"C08_condition_missed_matching_sample"} ELSE {}
 
-\* A call returned.  res: "ok" | "err" | "pending" | "died" (did not return / panicked)
+\* A call returned.  res: "ok" | "err" | "pending" | "ended" (a stream yielded None) | "died" (did not return / panicked)
 \* removing: take form; marking: read form (sample state becomes READ); full: SampleInfo is reported;
 \* viewing: the call counts as an access of the instances (every DataReader form); strict: completeness demanded
 AbsCall(res, out, max, cond, scope, removing, marking, full, viewing, strict) ==
   LET ids == OutIds(out)
-      v0 == IF res = "died" THEN {"C09_call_did_not_return"} ELSE {}
+      v0 == (IF res = "died" THEN {"C09_call_did_not_return"} ELSE {})
+            \* the async stream of a reader that lives said "no more items, ever": whoever consumes it the ordinary way
+            \* (while let Some(..) / for_each) is never shown a later change
+            \cup (IF res = "ended" THEN {"C09_stream_ended_while_reader_alive"} ELSE {})
       v1 == OutFold(out, 1, full, removing, cond, {})
       v2 == IF full THEN ViewViol(out) ELSE {}
       v3 == OrderViol(out) \cup ScopeViol(out, scope)
